@@ -199,6 +199,19 @@ pub fn run_c19(r: &Runner) {
 const CN: [&str; 11] = ["new", "peek", "peek_ahead", "peek_n", "peek_n_bytes", "advance", "advance_bytes", "set_cursor", "set_cursor_back_bytes", "as_ref", "next"];
 
 pub fn check_c20(r: &Runner, ctx: &mut Ctx, l: &mut Local, rec: &CaseRec) -> Result<(), Violation> {
+    if rec.sub == "cachegrind-hang" {
+        let (f, n) = (rec.aux[0] as usize, rec.aux[1] as usize);
+        let bname = C20_BUILDS[(rec.aux.get(2).copied().unwrap_or(0) as usize).min(2)];
+        if let Some(bin) = vdigest_for_c20(r, bname) {
+            if let Err(e) = family_cost(&bin, f, n, &format!("replay{}", std::process::id())) {
+                if e.starts_with("HANG") {
+                    return Err(Violation::new("C20/non-termination", format!("vdigest build `{}`: {}", bname, &e[5..]), rec));
+                }
+            }
+        }
+        r.account(l, rec, true, "hang replay");
+        return Ok(());
+    }
     if rec.sub == "cachegrind" {
         // replay: recompute the scaling of this family
         let (f, n) = (rec.aux[0] as usize, rec.aux[1] as usize);
@@ -324,6 +337,33 @@ fn family_cost(bin: &std::path::Path, f: usize, size: usize, tag: &str) -> Resul
     let rec = CaseRec::new("cachegrind", entry, cfg, size / 3 + 16, buf);
     let path = format!("{}/fam{}_{}_{}.bin", dir, f, size, tag);
     super::p_variants::write_corpus(&path, std::slice::from_ref(&rec));
+    // native pre-run (milliseconds): a parse that does not return is reported as such
+    // instead of burning valgrind budgets
+    {
+        let mut child = Command::new(bin)
+            .arg(&path)
+            .stdout(std::process::Stdio::null())
+            .stderr(std::process::Stdio::null())
+            .spawn()
+            .map_err(|e| format!("cannot run vdigest: {}", e))?;
+        let t0 = std::time::Instant::now();
+        loop {
+            match child.try_wait() {
+                Ok(Some(_)) => break,
+                Ok(None) => {
+                    if t0.elapsed().as_secs() > 30 {
+                        let _ = child.kill();
+                        let _ = child.wait();
+                        let _ = std::fs::remove_file(&path);
+                        return Err(format!("HANG family {} ({}) at {} bytes: the production build does not return within 30 s", f, gen::family_name(f), size));
+                    }
+                    crate::engine::PROGRESS.fetch_add(1, std::sync::atomic::Ordering::Relaxed);
+                    std::thread::sleep(std::time::Duration::from_millis(5));
+                }
+                Err(e) => return Err(e.to_string()),
+            }
+        }
+    }
     let a = cachegrind_irefs(bin, &path, 1);
     let b = cachegrind_irefs(bin, &path, 3);
     let _ = std::fs::remove_file(&path);
@@ -420,6 +460,12 @@ fn cachegrind_phase(r: &Runner) {
                         if let Err(v) = judge_scaling(f, n, c1, c4, &rec, bins[bi].0) {
                             r.report(v);
                         }
+                    }
+                    (Err(e), _) | (_, Err(e)) if e.starts_with("HANG") => {
+                        let (entry, cfg, buf) = gen::family(f, n);
+                        let mut rec = CaseRec::new("cachegrind-hang", entry, cfg, n / 3 + 16, buf);
+                        rec.aux = vec![f as u64, n as u64, C20_BUILDS.iter().position(|b| *b == bins[bi].0).unwrap_or(0) as u64];
+                        r.report(Violation::new("C20/non-termination", format!("vdigest build `{}`: {}", bins[bi].0, &e[5..]), &rec));
                     }
                     (Err(e), _) | (_, Err(e)) => r.inconclusive.lock().unwrap().push(format!("cachegrind family {}: {}", f, e)),
                 }
